@@ -10,7 +10,7 @@ VERIF = os.path.dirname(os.path.dirname(os.path.abspath(__file__)))
 COQ = os.path.join(VERIF, "coq")
 CASES = os.path.join(COQ, "cases")
 COQFLAGS = ["-Q", os.path.join(COQ, "Gen"), "Gen", "-Q", os.path.join(COQ, "Model"), "Model"]
-HEADER = ("From Model Require Import Base Seq Pairing Bars Store Tok Midi Comp Getters Show ShowX.\n"
+HEADER = ("From Model Require Import Base Seq Pairing Bars Store ScaleDown Tok Midi Comp Getters Show ShowX.\n"
           "Open Scope string_scope.\nOpen Scope Z_scope.\n")
 
 
